@@ -136,7 +136,11 @@ def tryNew (s1 s2 : String) : Outcome (Path × Path) :=
 
 end scalar
 
+end Spdc.Sweep
+
 /-! ## the configuration field a path names -/
+namespace Spdc.Cfg
+open Spdc.Sweep
 
 section fields
 variable {α : Type}
@@ -178,4 +182,4 @@ def Config.setField (c : Config α) (p : Path) (x : α) : Config α :=
 
 end fields
 
-end Spdc.Sweep
+end Spdc.Cfg
